@@ -3,7 +3,7 @@
    open stream resumed under its original id (downstreams under their original alias) and working afterwards, API
    requests around the outage re-sent after recovery, notifications once per outage, a refused / cut resume reported
    as closed for that stream only, no stream silently detached.
-   Outage = BLinkDown cause=script while Close has not been called. Judged at the end of the scenario (Quiesced). *)
+   Outage = BLinkDown cause=script (or the first failing client-side write of a connection) while Close has not been called. Judged at the end of the scenario (Quiesced). *)
 EXTENDS MonCommon
 
 MonInit == [ tokens |-> 0, dials |-> 0, cuts |-> <<>>, accepts |-> <<>>, connects |-> <<>>, disc |-> 0, recon |-> 0,
@@ -25,7 +25,11 @@ MonStep(m, e) ==
     CASE e.ev = "Token" -> [m EXCEPT !.tokens = @ + 1]
       [] e.ev = "Dial" -> [m EXCEPT !.dials = @ + 1]
       [] e.ev = "BAccept" -> [m EXCEPT !.accepts = Append(@, [c |-> e.c, i |-> e.i])]
-      [] e.ev = "BLinkDown" /\ e.cause = "script" -> [m EXCEPT !.cuts = Append(@, [c |-> e.c, i |-> e.i])]
+      [] e.ev = "BLinkDown" /\ e.cause = "script" -> IF \E x \in RangeS(m.cuts) : x.c = e.c THEN m     \* (already broken: one outage per connection)
+                                                     ELSE [m EXCEPT !.cuts = Append(@, [c |-> e.c, i |-> e.i])]
+      \* a write error reported by the transport while its read direction still works is an outage of that connection as well
+      [] e.ev = "Fault" /\ e.do = "failWrite" -> IF \E x \in RangeS(m.cuts) : x.c = e.c THEN m
+                                                 ELSE [m EXCEPT !.cuts = Append(@, [c |-> e.c, i |-> e.i])]
       [] e.ev = "BRecvReq" /\ e.kind = "ConnectRequest" -> [m EXCEPT !.connects = Append(@, [c |-> e.c, token |-> e.token])]
       [] e.ev = "Disconnected" -> IF m.closeConnI = 0 THEN [m EXCEPT !.disc = @ + 1] ELSE m
       [] e.ev = "Reconnected" -> [m EXCEPT !.recon = @ + 1]
